@@ -1,0 +1,12 @@
+//go:build verif
+
+package retry
+
+import "time"
+
+// VerifSetDefaultIntervals overrides the default back-off intervals and returns a restore function.
+func VerifSetDefaultIntervals(base, max time.Duration) (restore func()) {
+	ob, om := defaultBaseInterval, defaultMaxInterval
+	defaultBaseInterval, defaultMaxInterval = base, max
+	return func() { defaultBaseInterval, defaultMaxInterval = ob, om }
+}
